@@ -413,6 +413,25 @@ func (r *regRun) nameCases(n int) {
 					}
 				}
 				prevRoot = s.Address().GetRoot().String()
+				// the same with the cache directory given as an option: created, closed, created again - refused
+				if r.res.Stats["directory_option_cases"] < 12 {
+					r.res.Stats["directory_option_cases"]++
+					other := "another-directory"
+					dname := name + "-kept-elsewhere"
+					mark("names: Create %q with the Directory option, twice", dname)
+					if s1, err := n1.DB.Create(ctx, dname, typeOf(t), &orbitdb.CreateDBOptions{AccessController: ac, Directory: &other}); err == nil {
+						_ = s1.Close()
+						r.res.Comparisons++
+						if s2, err := n1.DB.Create(ctx, dname, typeOf(t), &orbitdb.CreateDBOptions{AccessController: ac, Directory: &other}); err == nil {
+							r.violate("create-existing", fmt.Sprintf("Create(%q, %s) with the Directory option succeeded twice without overwrite: creating over an existing local database is refused", dname, t), nil, nil)
+							_ = s2.Close()
+						}
+						if s3, err := n1.DB.Create(ctx, dname, typeOf(t), &orbitdb.CreateDBOptions{AccessController: ac}); err == nil {
+							r.violate("create-existing", fmt.Sprintf("Create(%q, %s) succeeded without overwrite after the same database had been created with the Directory option", dname, t), nil, nil)
+							_ = s3.Close()
+						}
+					}
+				}
 				// another peer computes the same address and opens the same database
 				ac2 := sim.AccessFor(acList(s))
 				if l != nil {
